@@ -692,6 +692,14 @@ func (s *xState) load(f *xFrame, u *ssa.UnOp, depth int) xVal {
 				return xVal{K: xBool, B: false}
 			}
 		}
+		if al, ok := addr.V.(*ssa.Alloc); ok && !al.Heap {
+			// a stack local (e.g. a named result) of nilable type never assigned
+			// on this path is still nil
+			switch u.Type().Underlying().(type) {
+			case *types.Interface, *types.Pointer, *types.Slice, *types.Map, *types.Chan, *types.Signature:
+				return xVal{K: xNil}
+			}
+		}
 		return xVal{K: xAtom, V: u, F: f}
 	}
 	if addr.K == xAtom && addr.F == nil {
